@@ -467,3 +467,73 @@ def SignClass.cmp0' : SignClass → CmpOp → Bool
   | .pos, op => intCmp op 0 1
 
 end Au.Zero
+
+
+/-! ## Additive definitions (proof-extension round)
+
+Further entry points through which a quantity meets `ZERO`.  Nothing above is changed; the driver
+exposes these through `c19 extra`, and the harness compares each of them with the headers. -/
+namespace Au.Zero
+open Au
+
+/-- Conversion of an arithmetic value to rep `r` as `static_cast<Rep>` performs it when source and
+target are both integral (modular) or are the same floating format (identity); `none` otherwise
+(not needed by the code paths below). -/
+def castTo (r : Rep) : Val → Option Val
+  | .int _ v => match r with
+    | .int t => some (.int t (t.wrap v))
+    | .flt _ => none
+  | .flt f x => match r with
+    | .flt f' => if f = f' then some (.flt f x) else none
+    | .int _ => none
+
+/-- `Quantity::operator+=` / `operator-=` (quantity.hh:301-308): `value_ += other.value_`, i.e.
+`value_ = static_cast<Rep>(value_ ± other.value_)` with the sum formed in the promoted type. -/
+def qtyCompound (op : ArOp) (a b : Qty) : Outcome :=
+  if a.unit = b.unit then
+    match valArith op a.val b.val with
+    | some (.ok v) =>
+      match castTo a.val.rep v with
+      | some w => .ok (.qty ⟨a.unit, w⟩)
+      | none => .hard .noMatch
+    | some (.ub w) => .ub w
+    | none => .hard .noMatch
+  else .hard .noMatch
+
+/-- `q += ZERO` / `q -= ZERO`: the parameter is `Quantity other`, so `ZERO` converts through
+`Quantity(Zero)`. -/
+def compoundWithZero (op : ArOp) (q : Qty) : Outcome :=
+  match convertZero (.qty q.unit q.val.rep) with
+  | .ok (.qty z) => qtyCompound op q z
+  | o => o
+
+/-- `q.in(QuantityMaker<U>{})` for the quantity's own unit (the maker's associated unit is `U`,
+quantity.hh:181-183): `return value_;`. -/
+def Qty.inViaMaker (q : Qty) : Val := q.val
+
+/-- `q.in<Rep>(u)` for the quantity's own unit and own rep (quantity.hh:170-172):
+`return static_cast<NewRep>(value_);` with `NewRep = Rep`. -/
+def Qty.inRepExplicit (q : Qty) : Option Val := castTo q.val.rep q.val
+
+/-- `q.data_in(u)` (quantity.hh:209-233): a reference to `value_`. -/
+def Qty.dataIn (q : Qty) : Val := q.val
+
+/-- `operator+(QuantityPoint p, Diff d)` / `operator+(Diff d, QuantityPoint p)`
+(quantity_point.hh:252-253): `QuantityPoint{p.x_ + d}` — the sum is a `Quantity<U, decltype(R+R)>`
+and is converted back to `Diff = Quantity<U, R>` (same unit: `static_cast<R>`) by the private
+constructor's parameter.  `dLeft` tells which operand the Diff is. -/
+def ptPlusDiff (dLeft : Bool) (p : Pt) (d : Qty) : Outcome :=
+  match (if dLeft then qtyFriend (.ar .add) d ⟨p.unit, p.val⟩ else qtyFriend (.ar .add) ⟨p.unit, p.val⟩ d) with
+  | .ok (.qty s) =>
+    match castTo p.val.rep s.val with
+    | some w => .ok (.point ⟨s.unit, w⟩)
+    | none => .hard .noMatch
+  | o => o
+
+/-- `p + ZERO` (`dLeft = false`) and `ZERO + p` (`dLeft = true`): `ZERO` fills the Diff slot. -/
+def pointPlusZero (dLeft : Bool) (p : Pt) : Outcome :=
+  match convertZero (.qty p.unit p.val.rep) with
+  | .ok (.qty z) => ptPlusDiff dLeft p z
+  | o => o
+
+end Au.Zero
